@@ -284,6 +284,8 @@ def sentinels():
         {"init": [], "cut": 0, "ops": [("a", c(5, I(0))), ("z", c(2, I(0))), ("r", 2), ("z", c(3, I(0))), ("z", c(4, I(0)))]},
         # dead clauses at the end of the chain, call with unbound first and non-matching second argument
         {"init": [c(1, A("a"), A("b"))], "cut": 1, "ops": [("z", c(4, A("b"), A("a"))), ("z", c(2, A("b"), S("f", V))), ("z", c(3, A("foo"))), ("r", 3), ("r", 2)]},
+        # asserta then assertz of clauses with one structure key next to an existing sub-sequence
+        {"init": [c(2, L([I(1), I(2)]))], "cut": 1, "ops": [("a", c(10, S("f", A("a")))), ("z", c(7, S("f", A("a"))))]},
         # a partial string in a head, looked at through clause/2
         {"init": [], "cut": 0, "ops": [("z", c(1, L([A("b")], V))), ("z", c(2, A("foo")))]},
     ]
